@@ -63,6 +63,8 @@ func c04Scripts(tier string) []uciParams {
 		{"go depth 1", "await", "go depth 1", "await"},
 		{"go depth 1", "await", "go infinite", "!stop", "await"},
 		{"go depth 1 movetime 5", "await", "go infinite", "!stop", "await"}, // the movetime timer of an answered go outlives it
+		{"go depth 2", "!stop", "await", "@other", "go depth 1", "await"},    // a stop racing with the natural end of the search, then another position: whatever is left of the first search must not answer the second
+		{"go depth 1", "!stop", "await", "@other", "go infinite", "stop", "await"},
 	}
 	var out []uciParams
 	for ei, e := range engs {
@@ -76,7 +78,15 @@ func c04Scripts(tier string) []uciParams {
 				}
 				script := append([]string{}, e.opts...)
 				script = append(script, st.line)
-				script = append(script, g...)
+				for _, l := range g {
+					if l == "@other" { // K v K with the OTHER side to move: a move of the first position is illegal here
+						l = "position fen " + kP2
+						if strings.Contains(st.line, " b ") {
+							l = "position fen " + kP1
+						}
+					}
+					script = append(script, l)
+				}
 				horizon := 900
 				if strings.Contains(strings.Join(g, " "), "infinite") {
 					horizon = 600
@@ -101,7 +111,7 @@ func c04Scripts(tier string) []uciParams {
 func init() {
 	Defs["C04"] = &Def{
 		ID:   "C04",
-		Rule: "engine (plain alpha-beta + the four bundled engines, constructed by code LIFTED from cmd/*/main.go at check time) x options (Hash 0/1, Noise, OwnBook on/off, flags) x set-up (K v K both colours, checkmated, stalemated, claimable three-fold via moves, half-move clock 100, fortress with and without moves, start position with book) x go variant (depth 1/2, bare, movetime, wtime/btime(+movestogo), infinite->stop, depth->stop, go;await;go, go;await;go infinite;stop). The GUI awaits each bestmove; `stop` is released at scheduler step k for a grid of k over the whole unstopped run, timers likewise, each engine goroutine in turn held back for 80 steps after the stop (slow-thread dimension); all schedules within the deviation bound. Oracle per execution: every go answered by exactly one bestmove (a GUI parked forever on await = missing answer), the move is reference-legal in the position last set up, 0000 iff that position has no legal move. distinct_nontrivial = distinct event-log classes",
+		Rule: "engine (plain alpha-beta + the four bundled engines, constructed by code LIFTED from cmd/*/main.go at check time) x options (Hash 0/1, Noise, OwnBook on/off, flags) x set-up (K v K both colours, checkmated, stalemated, claimable three-fold via moves, half-move clock 100, fortress with and without moves, start position with book) x go variant (depth 1/2, bare, movetime, wtime/btime(+movestogo), infinite->stop, depth->stop, go;await;go, go;await;go infinite;stop, go;stop;await;other position;go;await). The GUI awaits each bestmove; `stop` is released (a) as a lazy thread at ANY scheduling point for one deviation, timers likewise, and (b) at scheduler step k for a grid of k over the whole unstopped run, timers likewise, each engine goroutine in turn held back for 80 steps after the stop (slow-thread dimension); all schedules within the deviation bound. Oracle per execution: every go answered by exactly one bestmove (a GUI parked forever on await = missing answer), the move is reference-legal in the position last set up, 0000 iff that position has no legal move. distinct_nontrivial = distinct event-log classes",
 		Gen: func(tier string) []explore.Scenario {
 			var out []explore.Scenario
 			for _, p := range c04Scripts(tier) {
@@ -125,18 +135,21 @@ func init() {
 				l := measure(p)
 				stride := 24
 				if tier == "thorough" {
-					stride = 4
+					stride = 8
 				}
 				max := l
 				if max > 320 {
 					max = 320
 				}
 				timed := strings.Contains(strings.Join(p.Script, " "), "time")
+				lz := p
+				lz.Release, lz.Timer = -1, -1 // stop and timers as lazy threads: any instant, one deviation each
+				out = append(out, uciScenario(lz))
 				for k := 0; k <= max; k += stride {
 					q := p
 					q.Release = k
 					out = append(out, uciScenario(q))
-					if tier == "thorough" || (p.Engine == "plain" && k%(4*stride) == 0 && strings.Contains(strings.Join(p.Script, " "), "infinite")) {
+					if (tier == "thorough" && k%(2*stride) == 0) || (p.Engine == "plain" && k%(4*stride) == 0 && strings.Contains(strings.Join(p.Script, " "), "infinite")) {
 						// one engine goroutine is slow for a while after the stop arrives
 						for slow := 2; slow <= 5; slow++ {
 							r := p
@@ -157,8 +170,8 @@ func init() {
 		Bound: func(tier string, sc explore.Scenario) int {
 			var p uciParams
 			_ = json.Unmarshal(sc.Spec.Params, &p)
-			if tier == "thorough" {
-				return 2
+			if tier == "thorough" && p.Engine == "plain" && p.Slow == 0 && p.Timer == 0 {
+				return 2 // attempted after every scenario has been explored to bound 1
 			}
 			return 1
 		},
